@@ -1065,6 +1065,11 @@ func (r *Runner) strmAdd(res *strmResult, tag string) {
 		// list of heights, not a map keyed by previous-hash): these runs are judged by the Go-side oracles alone;
 		// so are the scans without a script to look for (the transition system has no such parameter)
 		c.Op, c.Mode, c.Go = "stream.direct", GoOnly, "ok"
+		if res.spec[0] == "o" && res.spec[7] == "-" && !res.crashed && res.detail == "" && strmOnlyLinkFaults(res.spec[6]) {
+			// ordered streaming with link faults only and no cancel: the observed outcome must be the one the
+			// map-level model of the ordering buffer (Model/Reorder.lean) computes from the released responses
+			c.Op, c.Mode, c.Go = "reorder.run", Full, strmObservedOutcome(res.events)
+		}
 	}
 	if res.crashed {
 		c.Go = "panic"
@@ -1073,6 +1078,41 @@ func (r *Runner) strmAdd(res *strmResult, tag string) {
 		c.Direct = append(c.Direct, res.detail)
 	}
 	r.Add(c)
+}
+
+func strmOnlyLinkFaults(plan string) bool {
+	for _, it := range strings.Split(plan, ",") {
+		if !strings.HasSuffix(it, ":w") && !strings.HasSuffix(it, ":n") {
+			return false
+		}
+		if strings.HasPrefix(it, "b0:") || strings.HasPrefix(it, "h") {
+			return false
+		}
+	}
+	return true
+}
+
+// what the consumer saw: how the stream ended and the heights (relative to from) delivered after the first
+func strmObservedOutcome(events string) string {
+	var del []string
+	sawErr, sawEnd := false, false
+	for _, tok := range strings.Split(events, ",") {
+		switch {
+		case tok == "err":
+			sawErr = true
+		case tok == "end":
+			sawEnd = true
+		case strings.HasPrefix(tok, "d") && tok != "d0":
+			del = append(del, tok[1:])
+		}
+	}
+	res := "running"
+	if sawErr {
+		res = "err"
+	} else if sawEnd {
+		res = "done"
+	}
+	return "ok " + res + " " + strings.Join(del, ",")
 }
 
 // strmBatch runs child commands (split over several children), adds every finished run as a case and
@@ -1175,6 +1215,22 @@ func init() {
 			return "ok valid", []string{detail}
 		}
 		return "ok valid", res.direct
+	})
+	reg("reorder.run", Full, func(args []string) (string, []string) {
+		if len(args) < 10 {
+			return "bad-op", nil
+		}
+		if _, err := strmParseSpec(args[:9]); err != nil {
+			return "bad-op", nil
+		}
+		rs, ok := strmChild([]string{"run " + strings.Join(args[:9], " ")}, 1, strmStall)
+		if len(rs) == 0 || !ok {
+			return "panic", []string{"the child produced no result"}
+		}
+		res := rs[len(rs)-1]
+		// the model is asked about the responses of THIS run: a replay may be scheduled differently
+		args[9] = res.events
+		return strmObservedOutcome(res.events), res.direct
 	})
 	reg("stream.direct", GoOnly, func(args []string) (string, []string) {
 		if len(args) < 9 {
